@@ -26,7 +26,11 @@ SCRATCH = "/var/tmp"
 
 INT_TYPES = {"i8": (8, True), "u8": (8, False), "i16": (16, True), "u16": (16, False),
              "i32": (32, True), "u32": (32, False), "i64": (64, True), "u64": (64, False)}
-PTR_TYPES = {"p4": 4, "p8": 8}
+# pointer atomics: element size (the step of the arithmetic) and sizeof(std::remove_pointer_t<pointee>) (differs for
+# pointers to pointers: int**, char**, Node12**)
+PTR_TYPES = {"p4": 4, "p8": 8, "p1": 1, "p2": 2, "p8l": 8, "p12": 12, "p16": 16, "pp4": 8, "pp1": 8, "pp12": 8}
+PTR_RP = {"pp4": 4, "pp1": 1, "pp12": 12}
+PTR_FULL = ("p4", "p8")      # every base operation; the others: arithmetic + a few base operations
 FLT_TYPES = {"f32": 32, "f64": 64, "f80": 80}
 ALL_TYPES = ["b"] + list(INT_TYPES) + list(PTR_TYPES) + list(FLT_TYPES) + ["flag"]
 
@@ -59,7 +63,7 @@ def kind_of(t):
         w, sg = INT_TYPES[t]
         return "KInt", "(CInt %d %s)" % (w, "true" if sg else "false")
     if t in PTR_TYPES:
-        return "KPtr", "(CPtr %d)" % PTR_TYPES[t]
+        return "KPtr", "(CPtr %d %d)" % (PTR_TYPES[t], PTR_RP.get(t, PTR_TYPES[t]))
     if t in FLT_TYPES:
         return "KFlt", "CFlt"
     return "KFlag", "CBool"
@@ -71,7 +75,7 @@ def ops_of(t):
     if t in INT_TYPES:
         return BASE_OPS + ADDSUB + INCDEC + BITS
     if t in PTR_TYPES:
-        return BASE_OPS + ADDSUB + INCDEC
+        return (BASE_OPS if t in PTR_FULL else ["store", "load", "xchg", "ces1"]) + ADDSUB + INCDEC
     if t == "f80":
         # no compare_exchange on long double: its 6 padding bytes make even std::atomic<long double>'s comparison
         # depend on stack garbage (observed: the reference itself is not reproducible), see group "f80-cas"
@@ -168,7 +172,8 @@ def boundaries(t, full):
         return vals if full else quick
     if t in PTR_TYPES:
         sz = PTR_TYPES[t]
-        return [32768, 32768 + sz, 32768 - sz, 32768 + 16 * sz]
+        # byte offsets into the harness arena (64 KiB): the middle, and both ends (one-past-the-end included)
+        return [32768, 32768 + sz, 32768 - sz, 32768 + 16 * sz, 0, sz, 65536 - sz, 65536 - 65536 % sz]
     if t in FLT_TYPES:
         from fractions import Fraction
         f = FMT[t]
@@ -245,6 +250,24 @@ class Gen:
             return r.choice([0, 1, 2, 3, 6])     # release / acq_rel with an injected failure: group "orders"
         return r.choice(RMW_MO)
 
+    @staticmethod
+    def ptr_in_arena(t, op, v, a):
+        """Pointer arithmetic of the cases stays inside the arena [0, 64 KiB] (one past the end allowed)."""
+        if t not in PTR_TYPES:
+            return True
+        sz = PTR_TYPES[t]
+        if op in ("fadd", "adda"):
+            r = v + a * sz
+        elif op in ("fsub", "suba"):
+            r = v - a * sz
+        elif op in ("preinc", "postinc"):
+            r = v + sz
+        elif op in ("predec", "postdec"):
+            r = v - sz
+        else:
+            r = v
+        return 0 <= r <= 65536
+
     def boundary_cases(self):
         full = self.tier == "thorough"
         for t in ALL_TYPES:
@@ -263,6 +286,8 @@ class Gen:
                         ops = []
                         for v in vs:
                             for a in args:
+                                if not self.ptr_in_arena(t, op, v, a):
+                                    continue
                                 ops.append(("store", 0, 0, 0, v, 0))
                                 if op.startswith("ce"):
                                     # expected = a (equal to the stored value when a == v), desired = another value
@@ -526,8 +551,16 @@ def fshow(t, bits):
         return str(bits)
 
 
+TYPE_CPP = {"b": "bool", "i8": "int8_t", "u8": "uint8_t", "i16": "int16_t", "u16": "uint16_t", "i32": "int32_t", "u32": "uint32_t",
+            "i64": "int64_t", "u64": "uint64_t", "f32": "float", "f64": "double", "f80": "long double", "p1": "char*", "p2": "short*",
+            "p4": "int*", "p8": "double*", "p8l": "long*", "p12": "Node12*", "p16": "long double*", "pp4": "int**", "pp1": "char**",
+            "pp12": "Node12**"}
+
+
 def describe(c, i, cfg, stored_before, got, want):
     op, vol, spur, mo, a1, a2 = c["ops"][i]
+    if c["type"] in PTR_TYPES:
+        stored_before = "arena+%s" % stored_before
     if c["type"] in FLT_TYPES:
         t = c["type"]
         cas = op.startswith("ce")
@@ -537,7 +570,7 @@ def describe(c, i, cfg, stored_before, got, want):
         want = [sh(want[0], not cas), sh(want[1]), sh(want[2], cas)]
     return ("[%s] yaclib_std::atomic<%s> holding %s: %s%s%s%s(args %s %s) -> returned %s, stored %s, expected %s; "
             "std::atomic: returned %s, stored %s, expected %s" % (
-                cfg, c["type"], stored_before, CPP_NAME.get(op, op), " volatile" if vol else "",
+                cfg, TYPE_CPP.get(c["type"], c["type"]), stored_before, CPP_NAME.get(op, op), " volatile" if vol else "",
                 " [injected spurious failure]" if spur else "", " order=%s" % MO_NAMES.get(mo % 8, mo) if mo else "",
                 a1, a2, got[0], got[1], got[2], want[0], want[1], want[2]))
 
